@@ -15,7 +15,7 @@ override, or the overriding middleware run twice), and `6bd4617` repairs it (mer
 group alike). The quick tier also runs all tables of three registrations over a two-pattern pool, with registrations
 made for two methods at once (`app.Add([GET, POST], ...)`, kind `GET+POST` in the spec): the smallest tables in which an endpoint, a later
 middleware and another method's endpoint meet. Quick 40-90 s (537 k scenarios), thorough ~8 min (3.5 M). A run-away guard in the driver turns "a handler ran more than 50 times" into an observation instead of a hung driver (the
-double-execution defect looped under one table)."""
+double-execution defect looped under one table). After the fourth batch of seeded changes the specification gained two things: `Vias` -- how each registration is *written* (directly, through a `Group` whose prefix is the head of the pattern, with the prefix in a one-element list, or both) does not enter the dispatch, the replay writes it that way (variants `vias*`) -- and `NormRespected`, a law on the *measured* match relation: spellings of a path that the configuration declares equal (`EquivTable`: `/abc` = `/ABC` without case sensitivity, = `/%61bc` under `UnescapePath`, = `/%41bc` under both, = `/abc/` without strict routing ...) are handled by the same routes; TLC evaluates it on the measured relation and the check names the witnesses (variants `norm*`)."""
 ASBUILT["C02"] = """**As built (C02 and C03 share `vlib/c02.py`).** `spec/PathMatch.tla` (reference relations `AllMay`/`AllMust`, `WellFormed`, `Delimited`, `NoExtra`,
 `RestDroppable`), `PathMatch_Gen.tla` (+ pools small/mid/full, `ExtraPats`, the C03 lemma as an invariant), `harness/c02_test.go`. Quick: 467 k
 (pattern, path, config) cases, 35 s; thorough ~5 min. Both statements are decided from one replay; the verdict is split by the kind of
@@ -27,7 +27,7 @@ registrations, which forces the route tree to be rebuilt while mounts are pendin
 states, 62 k programs, 33 s; thorough 2 routes / 3 containers / depth 3: 2.5 M states, 824 k programs, 9.5 min (3/3/3 with the larger pools
 passed 127 M states without finishing and was abandoned). Fixed: `c8ee2b3` (params / root / star flags of
 mounted routes) and `f811e1d` (a sub-app mounted at "/" inside a sub-app that is itself mounted at "/": start-up nil dereference -- first kept
-as the known finding `C04-nested-root-mount`, then repaired when a four-line fix turned up; the check now has no open finding)."""
+as the known finding `C04-nested-root-mount`, then repaired when a four-line fix turned up; the check now has no open finding). The `Serve` action (the application starts and answers a request in the middle of the program; what is registered afterwards means what it always means) was added after the fourth batch of seeded changes and at once found `f401b3b`: a sub-app mounted after an app that already had a mount went through startup was never expanded."""
 ASBUILT["C05"] = """**As built.** `spec/CtxLifecycle.tla` (+ `MC_CtxLifecycle.cfg`, `_mutant.cfg`: forgetting to reset one field must violate `NoForeignData`) and
 `harness/c05_test.go`: every history of <= 2 (thorough 3) preceding requests from 15 kinds x 5 probes is served **from wire bytes on one recycled
 `fasthttp.RequestCtx`** (flash-cookie parsing reads `RawHeaders`, which only a wire-parsed request has), GC off, pointer identity of the pooled
@@ -36,7 +36,7 @@ sees can only come from its own history; capped at 4 000 per process because eve
 others share an application that is renewed every 1 000 histories. Kinds and probes added after the second round of seeded changes: an optional
 parameter and a catch-all left empty by the probe, `SendFile` with and without `MaxAge`. The same histories are then run by 8 goroutines at
 once against one application (`TestC05Conc`; contexts migrate between goroutines, counted). The white-box export hook of section 5 was not needed. Fixed: `6cd3566` (stale flash
-slots). The seeded change C11B (a `Bind` object surviving in the pooled context) is caught here as well."""
+slots). The seeded change C11B (a `Bind` object surviving in the pooled context) is caught here as well. Later additions: views rendered *without* bind data of their own after `ViewBind` / `Locals` (`PassLocalsToViews` on; fields `renderbind`), and `JSONP` behind a middleware that keeps working after the handler returned (`respbody`: the bytes the response points at stay the request's own until it is written) -- the latter only shows in the concurrent replay."""
 ASBUILT["C06"] = """**As built.** `spec/Immutable.tla` (+ mutant config: an aliasing accessor under `Immutable` must violate the invariant) and `harness/c06_test.go`
 as a *forward* replay (TLC enumerates option x request shape x reuse history; the driver captures 25 accessor values without copying, serves
 the later requests on the same `RequestCtx`, compares every captured value with its byte copy) rather than the backward trace validation
@@ -61,7 +61,7 @@ is exit 2. Not built: child process under `ulimit -v` per case (one process per 
 Fixed: `9e4b00a` (custom context + unknown method: `index out of range [-1]`, process dies), `ca5d8ed` (header injection through `Location`,
 `Redirect().To`, `Links`, `Type` charset, cookie value / path / domain; NUL through `Set/Append/Vary`). Open finding `C07-nul-in-cookie-value`.
 False alarms corrected: `GET /o k HTTP/1.1` may be answered 404 (RFC 9112 3 allows splitting the request line at the last space); the
-strict parser rejects only CR, LF, NUL in values, not every control byte."""
+strict parser rejects only CR, LF, NUL in values, not every control byte. Later additions: conditional requests (`If-None-Match`) with hostile `Cache-Control` lists (several near-misses of `no-cache`) -- `Fresh()` must terminate; helpers `flashlevel` (levels 10, 13, 127: a level is one byte of the cookie) and `flashinput` (`WithInput`: the text is what the *client* sent), argument classes whose *length* bytes are CR / LF (13, 266, 269, 2570)."""
 ASBUILT["C08"] = """**As built.** `spec/ErrorHandler.tla` + `MC_ErrorHandler.tla/.cfg` (`Configure`, `Raise`, `Deliver`; `ExactlyOnce`, `ChosenIsScoped`, `ChosenIsInnermost`),
 `harness/c08_test.go`: forests of <= 3 mounted apps over 7 confusable prefixes, every scenario run repeatedly on apps mounted parent-first and
 child-first, with the error raised by root middleware before the mounts, after them, or by a handler inside the mounted apps; two further
@@ -70,7 +70,7 @@ ASBUILT["C09"] = """**As built.** `spec/Negotiation.tla` (`Pick`, `FormatOutcome
 header; `Accepts` twice on a pooled context, `Format`). Token lists (`AcceptsCharsets/Encodings/Languages`) are enumerated as ranges with an empty subtype over three tokens that are no prefixes of
 one another. Bounds are explicit constants: quick 2 ranges x 2 offers (75 k cases), thorough 3 x 2 and a wider q / parameter pool 2 x 3 (3.3 M
 cases, 7 min; the first thorough configuration, 3 x 3 over the wide pool, was 87 M cases and was abandoned after 7 GB of output). False alarms corrected: `Format`'s 406 is a status, not an error; with an absent
-`Accept` the default handler of `Format` is not asserted."""
+`Accept` the default handler of `Format` is not asserted. Later additions: an offer-only token that begins with the letters of a range's token without being it (`utf-16le` / `gzip2` / `eng`: a range names one token) and empty list elements (`a,, b`)."""
 ASBUILT["C10"] = """**As built.** `spec/TrustProxy.tla` (`Trusted`, output functions, `NonInterference`, `SecureIffHttps`, `ValidatedIPIsAnAddress`), `harness/c10_test.go` with
 `fakeConn`/`fakeTLSConn` supplying peer address and TLS state (IPv4 peers in 4-byte and 16-byte form), forwarded scheme values other than
 `https` (`ftp`, upper case), and a sibling application derived from `app.Config()` created before any request (outputs must not depend on
@@ -94,33 +94,33 @@ cannot keep the unedited suite green (redirect tests read and write the cookie a
 ASBUILT["C13"] = """**As built.** `spec/Limiter.tla`, `MC_Limiter.tla` + cfgs (fixed / sliding / skip / skip-sliding / mutant without mutex), `Limiter_Trace.tla` (+ config
 templates), `harness/c13_test.go` (`TestC13Sched`: gate-scheduler DFS, traces; `TestC13Hist`: simulated timed histories on memory and external
 storage). 4.2 M states, 18 k traces/histories, ~100 s quick. Invariants that read the clock are evaluated only in states where the clock
-has not just ticked past a window (first version false-alarmed on the model itself). Fixed: `d080fab`, `eaf1939`."""
+has not just ticked past a window (first version false-alarmed on the model itself). Fixed: `d080fab`, `eaf1939`. `MemoryStore.tla` (added with the fourth batch of seeded changes) specifies the in-process store behind the middleware: a two-phase garbage collector (`GcScan` under the read lock, `GcSweep` under the write lock) that must be invisible (`GcInvisible`: what `Get` returns is changed by `Set`, `Delete` and time only; `SweepCollects`); the configuration without the sweep's re-check must fail. It is bound to the code through hook `adbaf31`: in the history replay every other request that follows a tick is served *inside* the collector's gap (479 of 32 k requests in the quick tier)."""
 ASBUILT["C14"] = """**As built.** `spec/Cache.tla`, `MC_Cache.tla` + cfgs (`FetchUnderLock` TRUE = code as repaired, FALSE = original order, must fail), `Cache_Hist.tla`,
 `Cache_Trace.tla`, `harness/c14_test.go`. Schedule exploration is chunked and **resumable across processes** (`exploreFrom` with a schedule
 prefix) because the cache's refresher goroutines make one process slower with every execution. `NoStuck` is an invariant (a request that can
 never finish) instead of TLC's deadlock check; `Tick` is enabled only while the mutex is free. After an eviction tie among equally old
 entries a history is no longer compared (`amb` flag). The origin's headers are functions of its body (content type, content encoding, a custom
 and a repeated custom header), so every served response is checked against the body the specification prescribes; histories are replayed with
-and without `StoreResponseHeaders`. Fixed: `a67f42a`, `bd72493`, `ce6213b` (a repeated origin header was replayed with its last value only). The seeded change C14B is neutralised by `bd72493`."""
+and without `StoreResponseHeaders`. Fixed: `a67f42a`, `bd72493`, `ce6213b` (a repeated origin header was replayed with its last value only). The seeded change C14B is neutralised by `bd72493`. Later additions: `HeapPut`'s index range grows with the heap (a no-cache refresh leaves the superseded entry in the heap; the old range silently disabled the step); a third history variant runs external-storage histories in a process in which nothing starts the clock shared through gofiber/utils (`ownClock`)."""
 ASBUILT["C15"] = """**As built.** `spec/Session.tla` (mode `middleware` / `store`), `harness/c15_test.go`, simulated histories replayed under the virtual clock for cookie /
 header / query sources on memory and external storage with a counting `KeyGenerator`. Writes after `Destroy` in the same request (nothing of
 them is kept), a second `store.Get` for a loaded session (`ReGet`: same id, stored data, absolute deadline unchanged) and a focused
 configuration (`Session_Hist_life.cfg`: one client, single ticks of 2 between requests, so that a session in use meets its absolute deadline)
-were added after the second round of seeded changes. Sequential only: the concurrent same-id exploration was not built."""
+were added after the second round of seeded changes. Sequential only: the concurrent same-id exploration was not built. `ByIDSave(i, k, v)` (store API task: `GetByID`, `Set`, `Save`, `Release`; saving is a use -- the idle timeout runs from then, the absolute deadline stays) was added after the fourth batch of seeded changes."""
 ASBUILT["C16"] = """**As built.** `spec/Csrf.tla` (+ `Csrf_Hist.cfg.tmpl`; `SessionBackend`, `Put/Drop` token semantics of the session back end), `harness/c16_test.go`.
 Fixed: `7171d2e` (Referer compared as an origin). False alarm corrected: a DELETE route that sits behind the middleware is an unsafe request
-like any other; the first model treated the harness's own "delete token" route as safe."""
+like any other; the first model treated the harness's own "delete token" route as safe. The restriction that a `Referer` is only generated next to an absent / `null` Origin on https was dropped: every Origin class meets every Referer class on both schemes."""
 ASBUILT["C17"] = """**As built.** `spec/Idempotency.tla`, `MemoryLock.tla`, `Idempotency_Trace.tla` + cfgs (incl. a non-excluding Locker that must violate `AtMostOnce`),
 `harness/c17_test.go` (`gatedLocker` logging around the real `MemoryLock`). Requests without a key or with a safe method are the action `Bypass`
 (invariant `BypassUnaffected`; in a trace any storage or lock event of such a request is not enabled); 9 scenarios. No defect found; the suspicion about `MemoryLock` deleting entries
-while others wait is refuted at design level and the code's traces conform."""
+while others wait is refuted at design level and the code's traces conform. Later additions: every execution sends one kept header whose *name* no other execution uses and the trace's `end` event carries the names seen (`only`): the answer carries exactly the one of the execution it reports; `KeepResponseHeaders` is spelled in mixed case."""
 ASBUILT["C18"] = """**As built.** `ClientAssemble.tla`, `ClientCore.tla` (+ `MC_ClientCore.cfg`, `_orig.cfg` with `Compete = FALSE`, must violate `WriteOwn`), `CookieJar.tla`
 (+ `Hist.cfg`, `Hist_root.cfg`), `ClientBody.tla` (setter calls `AddForm / AddFile / SetRaw / SetJSON` in program order, the "files win over form
 fields" rule, what arrives per key / per file); drivers `c18asm_test.go`, `c18body_test.go`, `c18core_test.go` (uses the two verif gates of section 5),
 `c18jar_test.go`. Fixed:
 `def2740`, `335f592`, `fa3377b` (jar), `fbc241a` (hand-off), `fd7a868` (path parameter escaping). Open finding `C18-jar-path-direction`: the
 repository's own `Test_CookieJarGet` asserts the reversed path test. Harness errors corrected: a double `resp.Close()` put one Response
-into the pool twice; the identity of a pooled `*Request` is unreliable, so requests are mapped through the goroutine id at the second hook."""
+into the pool twice; the identity of a pooled `*Request` is unreliable, so requests are mapped through the goroutine id at the second hook. `ClientKV.tla` (added with the fourth batch of seeded changes): every sequence of <= 3 `Add` / `Set` / plural / `Del` calls on headers, query parameters and form fields, on request and client; what arrives is per key what the calls leave behind (`SetOverrides`). It found `6d15e73` at once (`Set*` replaced only the first of several values) and the open finding `C18-set-reorders-other-values`. `ClientAssemble.tla` got the request's own context deadline (`CtxKinds`, `Cut`): a later deadline does not extend the timeout, and a request cut off long before the reply can arrive must end with an error (1.5 s endpoint, 30 ms timeout: no timing race)."""
 ASBUILT["C19"] = """**As built.** `spec/Cors.tla` (`Scope` constant), `harness/c19_test.go`; all cases are served on one recycled `RequestCtx`, as on a keep-alive connection, so a header left behind by the previous
 response would show. 25 k cases, 7-9 s. No defect found."""
 ASBUILT["C20"] = """**As built.** `spec/EncryptCookie.tla`, `harness/c20_test.go`. 5.6 k symbolic scenarios expanded to every byte / length of real ciphertexts; the first handler may fail after setting its cookies (`outcome`), and `TestC20Conc` performs the
